@@ -6,6 +6,21 @@ import json, subprocess
 TRAV_NOTE = "Trusted: the harness's response-graph generator and its own XOR-distance code; the DoQuery seam (no server, no socket: the real traversal.Operation with k-nearest, containers, types and int160 is what runs); the source overlay's yield points (lock-site audit on every build); testing/synctest quiescence."
 WIRE_NOTE = "Trusted: the harness's own bencode codec, KRPC reading of BEP 5/32/42/44 and (for table checks) the verif-tagged read-only snapshot hook; source addresses only in forms a real socket reports; testing/synctest fake clock and quiescence; lock-order scheduling of the instrumented packages."
 claimed = {
+ "C12": dict(
+   text="Server side: generated put/get histories (all signature, salt, seq, value-size and value-shape variants, wire and API) against a real Server with a recording Store, judged by an independent ed25519/size/target reference. Client side: getput.Get of a real Server against simulated peers returning genuine, forged, stale and partial items in every arrival order (also at yield granularity); the returned value must verify and carry the highest valid seq received. Exploration over sampled histories and reply sets.",
+   note=WIRE_NOTE + " The reference uses crypto/ed25519 and the BEP 44 signing buffer written out in the harness.", design="§5 C12"),
+ "C13": dict(
+   text="(a) sequential put/get/expiry histories through wire and API against a reference register per target, with the simulated clock placed exactly on expiry instants; (b) 2-4 concurrent clients (direct Wrapper, Server.Put, inbound datagrams) over a Store whose Get/Put/Del are scheduling points, with the wrapper's lock in the lock model: the write log's seq must never decrease and the history must be linearizable against the register model (porcupine); (c) the same with injected store errors. Exploration over sampled histories and schedules.",
+   note=WIRE_NOTE + " porcupine v1.3.0 decides linearizability of histories of <= 10 operations; Unknown (time-out) is counted, never reported.", design="§5 C13"),
+ "C16": dict(
+   text="Real Announce/AnnounceTraversal of a real Server against simulated get_peers networks (token / no token / undecodable token / values / error / late / silent / lying peers, loss, duplicate IDs), every option combination, Close or StopTraversing at arbitrary simulated times (and yield-level schedules): every announce_peer on the wire is checked against the tokens the simulator issued and the closest-set predicate, the Peers channel against the responses the server actually received, and termination in every run. Exploration over sampled networks and schedules.",
+   note=WIRE_NOTE, design="§5 C16"),
+ "C19": dict(
+   text="Blocklists (IPv4, IPv6, v4-mapped probes, ranges and single addresses; installed at construction or changed at run time) and passive mode crossed with every inbound and outbound path of a real Server: the simulated socket checks every write against the list in force; every datagram from a blocked source is bracketed by deep-equal table snapshots and unchanged store/callback/hook counters; passive nodes never reply and mark every query read-only. Exploration over sampled configurations and histories.",
+   note=WIRE_NOTE + " Membership in a block range is computed by the harness independently of iplist; lists are single-family so that iplist's own search order is not part of what is judged.", design="§5 C19"),
+ "C20": dict(
+   text="Tight limiters (rate 1-200/s, burst 1-12) under inbound floods from up to 300 sources and concurrent outbound queries with every rate-limiting option, traversals and write errors, on the simulated clock; the sliding-window bound burst + rate x window is evaluated over the fake timestamps of all rate-limited successful writes; in yield mode the order in which writers reach the limiter is a seeded scheduler decision. Exploration over sampled loads and schedules.",
+   note=WIRE_NOTE + " golang.org/x/time/rate runs real code on the fake clock; 1e-3 slack for its float arithmetic.", design="§5 C20"),
  "C07": dict(
    text="Concurrent outbound queries of a real Server against an adversarial datagram stream (spoofed address/port, adjacent/prefix/extended/foreign transaction ids, duplicates, replays) with unique markers per datagram; the completion history of every call is checked against the simulator's own record of which datagram matched which (address, t) while the call was outstanding; also at yield granularity, where registration, send and reply hand-over are scheduling points. Exploration over sampled call sets, streams and schedules.",
    note=WIRE_NOTE + " Real transaction ids are shown to the adversary (no canonical translation in this scenario).", design="§5 C07"),
